@@ -205,12 +205,13 @@ static int json_patch_apply_move_copy(struct json_object **res,
 		return -1;
 	}
 
-	from_s = json_object_get_string(jfrom);
-	/* a JSON null "from" or "path" yields a NULL string */
-	if (from_s == NULL) {
+	/* "from" must be a JSON string (a JSON null is a NULL jfrom) */
+	if (!json_object_is_type(jfrom, json_type_string)) {
 		_set_err(EINVAL, "Invalid from field");
 		return -1;
 	}
+	from_s = json_object_get_string(jfrom);
+	/* a JSON null "path" yields a NULL string */
 	if (path == NULL) {
 		_set_err(EINVAL, "Invalid path field");
 		return -1;
@@ -310,13 +311,20 @@ int json_patch_apply(struct json_object *copy_from, struct json_object *patch,
 			_set_err(EINVAL, "Patch object does not contain 'op' field");
 			return -1;
 		}
-		op = json_object_get_string(jop);
-		if (op == NULL) { // "op": null
+		/* "op" must be a JSON string (a JSON null is a NULL jop) */
+		if (!json_object_is_type(jop, json_type_string)) {
 			_set_err(EINVAL, "Patch object has invalid 'op' field");
 			return -1;
 		}
+		op = json_object_get_string(jop);
 		if (!json_object_object_get_ex(patch_elem, "path", &jpath)) {
 			_set_err(EINVAL, "Patch object does not contain 'path' field");
+			return -1;
+		}
+		/* "path" must be a JSON string, not the serialization of some other value;
+		 * a JSON null (NULL jpath, NULL path) is rejected by each operation */
+		if (jpath != NULL && !json_object_is_type(jpath, json_type_string)) {
+			_set_err(EINVAL, "Invalid path field");
 			return -1;
 		}
 		path = json_object_get_string(jpath); // Note: empty string is ok!
